@@ -39,10 +39,12 @@ MANIFEST = dict(
          'the filter matches (code matching = suffix; equals membership on the generated real action URIs, by decide); '
          'granted <= min(requested, max) for requested > 0; GetStatus/Renew answers = granted - elapsed on the 10 ms raster; '
          'unknown / unsubscribed / ended identifiers get a fault and change nothing; stop with end messages posts exactly one '
-         'SubscriptionEnd per live subscription to EndTo else NotifyTo, none when switched off. The model is compared with '
+         'SubscriptionEnd per live subscription to EndTo else NotifyTo (address, wsa:To and echoed reference parameters of every posted '
+         'message are re-parsed), none when switched off. The model is compared with '
          'the real managers on generated and directed op sequences on every run; the Python monitor is the run-time oracle and its '
          'alive/known view is compared with the Lean monitor of the theorems after every op.',
-    note='Known (not repaired): Expires=PT0S is granted the maximum; filter entries match by suffix. Repaired: sync manager '
+    note='Known (not repaired): Expires=PT0S is granted the maximum; filter entries match by suffix; an EndTo endpoint without reference '
+         'parameters is sent the NotifyTo ones. Repaired: sync manager '
          'delivered after Unsubscribe; Renew/GetStatus/Unsubscribe were answered for an unsubscribed subscription; a non-xml answer of '
          'one subscriber aborted the report distribution of the sync managers. The outcome of each delivery (incl. the state of the '
          'pooled soap client) is an input of the model: theorems hold for every outcome assignment; pool behaviour is checked by the oracle. '
@@ -190,6 +192,21 @@ def addr_str(a):
 ADDR_OF = {addr_parts(a): a for a in range(NADDR)}
 
 
+def endpoint_url(a, k):
+    """the url a subscriber puts into NotifyTo / EndTo of its k-th Subscribe: address a plus a path of its own (as the real
+    consumer does: .../subscr1, .../subscr1_e), so that a posted message can be attributed without looking at its header"""
+    return f'{addr_str(a)}/s{k}'
+
+
+def parse_endpoint(netloc, path):
+    """(address number, number of the Subscribe op) of a posted-to netloc/path; None where it does not fit"""
+    import re
+    m = re.fullmatch(r'(/p\d+)(?:/s(\d+))?', path)
+    if not m:
+        return None, None
+    return ADDR_OF.get((netloc, m.group(1))), (int(m.group(2)) if m.group(2) else None)
+
+
 class FakeSock:
     @staticmethod
     def getsockname():
@@ -220,7 +237,7 @@ class FakeResponse:
 
 def _answer(env, netloc, path):
     """what the subscriber at netloc/path answers to a POST that reached it"""
-    mode = env.modes.get(ADDR_OF.get((netloc, path)), 'ok')
+    mode = env.modes.get(parse_endpoint(netloc, path)[0], 'ok')
     if mode == 'httpError':
         return FakeResponse(500, 'Internal Server Error', env.L.fault_body)
     if mode == 'garbage':
@@ -386,16 +403,18 @@ class Env:
         L = self.L
         raw = message.serialize(validate=False)
         hib = L.mr.read_received_message(raw, validate=False).p_msg.header_info_block
-        k = None
-        for r in hib.reference_parameters:
-            if r.tag in (f'{{{NS}}}N', f'{{{NS}}}E') and r.text and r.text[1:].isdigit():
-                k = int(r.text[1:])
-                break
-        a = ADDR_OF.get((netloc, path))
-        if a is not None and hib.To != addr_str(a):
-            a = None
+        a, k = parse_endpoint(netloc, path)
+        idents = [r for r in hib.reference_parameters if r.tag in (f'{{{NS}}}N', f'{{{NS}}}E')]
+        if k is None:      # url without a path of its own (consumer loop-back scenario): attribute by the echoed identifier
+            k = next((int(r.text[1:]) for r in idents if r.text and r.text[1:].isdigit()), None)
+        if a is not None and hib.To != f'http://{netloc}{path}':
+            a = None       # wsa:To is not the url the message was posted to
+        # the reference parameters echoed in the WS-Addressing header, relative to the subscription the url belongs to:
+        # n = its NotifyTo identifier, e = its EndTo identifier, x = anything else of ours
+        toks = sorted({('n' if r.tag.endswith('}N') and r.text == f'n{k}' else 'e' if r.tag.endswith('}E') and r.text == f'e{k}' else 'x')
+                       for r in idents})
         kind = 'e' if hib.Action == L.EventingActions.SubscriptionEnd else 'n'
-        rec = dict(kind=kind, action=hib.Action, k=k, addr=a, outcome='?', wire=[])
+        rec = dict(kind=kind, action=hib.Action, k=k, addr=a, outcome='?', wire=[], refs='+'.join(toks) or '-')
         self.posts.append(rec)
         self.current = rec
         return rec
@@ -442,7 +461,7 @@ class Env:
         out = []
         for p in self.posts:
             i = self.k2id.get(p['k'], '?')
-            out.append((p['kind'], i, '?' if p['addr'] is None else p['addr'], p['outcome'], p['action'], ' '.join(p['wire'])))
+            out.append((p['kind'], i, '?' if p['addr'] is None else p['addr'], p['outcome'], p['action'], ' '.join(p['wire']), p['refs']))
         self.posts = []
         return out
 
@@ -468,14 +487,19 @@ class Env:
 
     MODE_NAME = {'garbage': 'parseError', 'reset': 'notConnected'}
 
+    @staticmethod
+    def sub_fields(op):
+        """['sub', notifyTo, endTo, filter, dialectOk, expires, EndTo has reference parameters, NotifyTo has (default yes)]"""
+        return (*op, True) if len(op) == 7 else tuple(op)
+
     def _line(self, op, msgs=()):
         t, o = op[0], self._o
         # the outcomes observed per delivery are environment input of the model (`ov`)
         ov = ','.join(f'{m[1]}:{m[3]}' for m in msgs if isinstance(m[1], int)) or '-'
         if t == 'sub':
-            _, nt, et, flt, dok, exp, _eid = op
+            _, nt, et, flt, dok, exp, end_ident, notify_ident = self.sub_fields(op)
             f = 'none' if flt is None else ('-' if not flt else ';'.join(self._s(x) for x in flt))
-            return f'sub {nt} {o(et)} {f} {int(dok)} {o(exp)}'
+            return f'sub {nt} {o(et)} {f} {int(dok)} {o(exp)} {int(notify_ident)} {int(et is not None and end_ident)}'
         if t == 'renew':
             return f'renew {o(op[1])} {o(op[2])} {o(op[3])}'
         if t in ('status', 'unsub'):
@@ -495,7 +519,7 @@ class Env:
     def _sent(self, msgs):
         # order inside one op carries no meaning (async: gather): by subscription number, as the model lists them
         ms = sorted(msgs, key=lambda m: (m[1] if isinstance(m[1], int) else 10 ** 9, str(m[:4])))
-        return ' '.join(['sent', *(f'{m[0]}:{m[1]}:{m[2]}:{m[3]}' for m in ms)])
+        return ' '.join(['sent', *(f'{m[0]}:{m[1]}:{m[2]}:{m[3]}:{m[6]}' for m in ms)])
 
     def _do(self, op):  # noqa: C901, PLR0912, PLR0915
         L = self.L
@@ -503,7 +527,7 @@ class Env:
         t = op[0]
         line = self._line(op)
         if t == 'sub':
-            _, nt, et, flt, dok, exp, end_ident = op
+            _, nt, et, flt, dok, exp, end_ident, notify_ident = self.sub_fields(op)
             k = self.nsub_ops
             self.nsub_ops += 1
             s = evt.Subscribe()
@@ -512,13 +536,14 @@ class Env:
                 text = ''.join(x + seps[(k + j) % 4] for j, x in enumerate(flt))
                 s.set_filter(text, dialect=L.DeviceEventingFilterDialectURI.ACTION if dok else OTHER_DIALECT)
             s.Delivery.Mode = 'http://schemas.xmlsoap.org/ws/2004/08/eventing/DeliveryModes/Push'
-            s.Delivery.NotifyTo.Address = addr_str(nt)
-            n_id = etree.Element(f'{{{NS}}}N')
-            n_id.text = f'n{k}'
-            s.Delivery.NotifyTo.ReferenceParameters = [n_id]
+            s.Delivery.NotifyTo.Address = endpoint_url(nt, k)
+            if notify_ident:
+                n_id = etree.Element(f'{{{NS}}}N')
+                n_id.text = f'n{k}'
+                s.Delivery.NotifyTo.ReferenceParameters = [n_id]
             if et is not None:
                 s.init_end_to()
-                s.EndTo.Address = addr_str(et)
+                s.EndTo.Address = endpoint_url(et, k)
                 if end_ident:
                     e_id = etree.Element(f'{{{NS}}}E')
                     e_id.text = f'e{k}'
@@ -667,6 +692,7 @@ class Monitor:
                 self._check_grant('Subscribe', op[5], g)
                 assert i == len(self.recs)
                 self.recs.append(dict(notify=op[1], end=op[2], filter=list(op[3] or []), at=self.now, granted=g,
+                                      notify_ref=(op[7] if len(op) > 7 else True), end_ref=bool(op[2] is not None and op[6]),
                                       failures=0, unsub=False, ended=False, epr=epr, removed=False, unsub_at=None))
         elif t in ('renew', 'status', 'unsub'):
             i = self._target(out[-1])
@@ -725,7 +751,7 @@ class Monitor:
 
     def _notify(self, action, msgs):
         got = {}
-        for kind, i, addr, outcome, act, wire in msgs:
+        for kind, i, addr, outcome, act, wire, refs in msgs:
             self._wire(kind, i, addr, wire)
             if kind != 'n' or act != action:
                 self.fail('unexpected-message-during-notify', f'{kind} {act}')
@@ -733,6 +759,10 @@ class Monitor:
                 self.fail('message-to-unknown-subscriber', f'notification posted to {addr}')
             else:
                 got.setdefault(i, []).append((addr, outcome))
+                want = 'n' if self.recs[i]['notify_ref'] else '-'
+                if refs != want:
+                    self.fail('notification-wrong-reference-parameters',
+                              f'subscription {i}: the notification echoes reference parameters {refs!r}, those of NotifyTo are {want!r}')
         for i, r in enumerate(self.recs):
             expected = self.alive(r) and action in r['filter']
             g = got.get(i, [])
@@ -757,7 +787,7 @@ class Monitor:
 
     def _stop(self, send_end, msgs):
         got = {}
-        for kind, i, addr, _outcome, act, wire in msgs:
+        for kind, i, addr, _outcome, act, wire, refs in msgs:
             self._wire(kind, i, addr, wire)
             if kind != 'e':
                 self.fail('unexpected-message-during-stop', f'{kind} {act}')
@@ -765,6 +795,17 @@ class Monitor:
                 self.fail('message-to-unknown-subscriber', f'SubscriptionEnd posted to {addr}')
             else:
                 got.setdefault(i, []).append(addr)
+                r = self.recs[i]
+                # addressed to the EndTo endpoint if one was given, else to NotifyTo: an endpoint is address + reference parameters
+                want = ('e' if r['end_ref'] else '-') if r['end'] is not None else ('n' if r['notify_ref'] else '-')
+                if refs != want:
+                    if r['end'] is not None and not r['end_ref'] and refs == 'n':
+                        self.fail('subscription-end-foreign-reference-parameters:endto-has-none',
+                                  f'subscription {i}: its EndTo endpoint has no reference parameters, the SubscriptionEnd echoes those of NotifyTo')
+                    else:
+                        self.fail('subscription-end-wrong-reference-parameters',
+                                  f'subscription {i}: the SubscriptionEnd echoes reference parameters {refs!r}, those of '
+                                  f'{"EndTo" if r["end"] is not None else "NotifyTo"} are {want!r}')
         for i, r in enumerate(self.recs):
             if send_end and self.alive(r):
                 g = got.get(i, [])
@@ -859,7 +900,7 @@ def gen_case(rng, arbitrary_filters=True):  # noqa: C901, PLR0912, PLR0915
                 flt = None
             exp = expires()
             ops.append(['sub', rng.randrange(NADDR), rng.choice([None, None, rng.randrange(NADDR)]), flt,
-                        rng.random() > 0.06, exp, rng.random() < 0.7])
+                        rng.random() > 0.06, exp, rng.random() < 0.7, rng.random() < 0.8])
             marks.append(now + min(exp or md, md))
             nsub += 1
         elif w < 0.27:
@@ -953,6 +994,11 @@ def directed_cases():
                 mk(f'resubscribe-early-{o}-{again}', [['sub', 0, None, [a0], True, 1000, True], ['notify', a0], ['mode', 0, o], ['notify', a0],
                                                       ['mode', 0, 'ok'], ['sub', again, None, [a0], True, 1000, True], ['hk'], ['notify', a0],
                                                       ['notify', a0]])
+        # every combination of reference parameters in NotifyTo / EndTo, alive at shutdown (and notified before)
+        combos = [(None, False, True), (None, False, False), (1, True, True), (1, True, False), (3, False, True), (3, False, False)]
+        for order in (combos, combos[::-1]):
+            mk('reference-parameters', [['sub', 2 * (j % 3), et, [a0], True, 500, ei, ni] for j, (et, ei, ni) in enumerate(order)] +
+               [['notify', a0], ['stop', True]])
         mk('grace-boundary', [['sub', 0, None, [a0], True, 1000, True], ['unsub', *k(0)], ['tick', 100], ['hk'], ['tick', 1], ['hk'],
                               ['sub', 0, None, [a0], True, 1000, True], ['status', *k(1)], ['notify', a0]])
     return res
